@@ -141,7 +141,7 @@ fn ids(c: &Sx) -> Sx {
         let t = c[1].as_usize()?;
         let k = c[2].as_usize()?;
         let via = c[3].as_z()?;
-        if t > 256 || k > 10_000_000 || (via != 0 && via != 1) { return None; }
+        if t > 256 || k > 10_000_000 || !(0..=2).contains(&via) { return None; }
         let barrier = Arc::new(Barrier::new(t.max(1)));
         let mut hs = Vec::new();
         for _ in 0..t {
@@ -152,6 +152,22 @@ fn ids(c: &Sx) -> Sx {
                     let mut g = Graph::new();
                     b.wait();
                     for i in 0..k { out.push(g.add_node((i & 0xffff) as i32)); }
+                } else if via == 2 {
+                    // node creation interleaved with complete, unrelated top-level runs (fresh states, no GRAPH stack):
+                    // "never handed out twice in a process" whatever else the process runs in between
+                    let mut g = Graph::new();
+                    let mut is = InstructionSet::new();
+                    is.load();
+                    b.wait();
+                    for i in 0..k {
+                        out.push(g.add_node((i & 0xffff) as i32));
+                        if i % 3 == 0 {
+                            let mut other = PushState::new();
+                            PushParser::parse_program(&mut other, &is, "( 1 2 INTEGER.+ GRAPH.ADD 5 GRAPH.NODE*ADD )");
+                            let _ = PushInterpreter::run(&mut other, &mut is);
+                            if let Some(id) = other.int_stack.pop() { out.push(id as u32 as usize); }
+                        }
+                    }
                 } else {
                     let mut st = PushState::new();
                     let mut is = InstructionSet::new();
